@@ -125,6 +125,14 @@ def check(run: Run) -> None:
     stmts = rng.sample(stmts, min(cfg["stmts"], len(stmts)))
     for t in statement_token_edits(run, stmts, cfg["mut_vocab"][:12] if run.tier == "quick" else cfg["mut_vocab"]):
         add(t, "exec", "stmtedit")
+    # 3b. valid sentences followed by a dangling suffix (continuation at end of input, unclosed opener, ...)
+    SUFFIXES = ["\\\n", "\\", " \\\n", "\\\n\n", "\\\n  ", "    \\\n", "(", "[", "'", '"""', ";", " \\\n#c\n", "\\\r\n", ")", ":", "\\\n\\\n"]
+    for sent in pool[: max(20, len(pool) // 6)]:
+        t = conc.text(sent, 0)
+        base = t if t.endswith("\n") else t + "\n"
+        for sfx in SUFFIXES:
+            add(base + sfx, "exec", "suffix")
+            add(base.rstrip("\n") + sfx, "exec", "suffix_same_line")
     # 4. indentation
     for t in indent_family(run, cfg["indent"]):
         add(t, "exec", "indent")
